@@ -54,6 +54,9 @@ var (
 
 	// ErrNoMatchingHeaderCredentials indicates that the x5t#S256 header does not match the certificate from the x5t headers.
 	ErrNoMatchingHeaderCredentials = errors.New("x5t#S256 header does not match the certificate from the x5t headers")
+
+	// ErrInvalidCertificateChain indicates that the signing certificate does not chain up to the CA certificate the DID refers to.
+	ErrInvalidCertificateChain = errors.New("x509 certificate chain is invalid: signing certificate is not issued by the CA certificate of the DID")
 )
 
 var _ resolver.DIDResolver = &Resolver{}
@@ -106,12 +109,17 @@ func (r Resolver) Resolve(id did.DID, metadata *resolver.ResolveMetadata) (*did.
 	if err != nil {
 		return nil, nil, err
 	}
-	_, err = findCertificateByHash(chain, ref.RootCertRef, ref.Method)
+	rootCert, err := findCertificateByHash(chain, ref.RootCertRef, ref.Method)
 	if err != nil {
 		return nil, nil, err
 	}
 	validationCert, err := findValidationCertificate(metadata, chain)
 	if err != nil {
+		return nil, nil, err
+	}
+	// The DID names the CA: the signing certificate must have been issued under it (through the other certificates in the chain),
+	// otherwise anyone could present the (public) CA certificate next to a certificate of their own making.
+	if err = validateChain(validationCert, rootCert, chain); err != nil {
 		return nil, nil, err
 	}
 
@@ -129,6 +137,37 @@ func (r Resolver) Resolve(id did.DID, metadata *resolver.ResolveMetadata) (*did.
 		return nil, nil, err
 	}
 	return document, &resolver.DocumentMetadata{}, err
+}
+
+// validateChain checks that validationCert was issued, directly or through other certificates of the chain, by rootCert:
+// every certificate on the path is signed with the key of the next one, ending at rootCert.
+// It establishes the cryptographic link only; it does not evaluate X.509 constraints (validity period, CA flags, key usage).
+func validateChain(validationCert *x509.Certificate, rootCert *x509.Certificate, chain []*x509.Certificate) error {
+	current := validationCert
+	// the path can't be longer than the chain, which also guards against cross-signed loops
+	for range chain {
+		if current.Equal(rootCert) {
+			return nil
+		}
+		var issuer *x509.Certificate
+		for _, candidate := range chain {
+			if candidate == nil || candidate.Equal(current) {
+				continue
+			}
+			if candidate.CheckSignature(current.SignatureAlgorithm, current.RawTBSCertificate, current.Signature) == nil {
+				issuer = candidate
+				break
+			}
+		}
+		if issuer == nil {
+			return ErrInvalidCertificateChain
+		}
+		current = issuer
+	}
+	if current.Equal(rootCert) {
+		return nil
+	}
+	return ErrInvalidCertificateChain
 }
 
 // findValidationCertificate retrieves the validation certificate from the given chain based on metadata-provided thumbprints.
